@@ -133,6 +133,12 @@ func (e Ev[M]) MarshalJSON() ([]byte, error) {
 }
 
 type pider interface{ pid() int }
+type valuer interface {
+	pid() int
+	val() int
+}
+
+func (e Ev[M]) val() int { return e.V }
 
 type typeOps struct {
 	name  string
@@ -195,11 +201,20 @@ func mkOps[M any]() typeOps {
 			}
 			if sp.filter >= 0 {
 				fl := h.prog.filters[sp.filter]
-				opts = append(opts, eb.WithFilter(func(e Ev[M]) bool {
-					h.ctl.point(C("LFilter", Nat(e.P), Nat(rid)), true, h.noBind)
-					h.runActs(fl.acts)
-					return e.V >= fl.min
-				}))
+				if sp.filter == 2 {
+					// the third filter is declared over an interface the events satisfy, not over the event type itself
+					opts = append(opts, eb.WithFilter(func(e valuer) bool {
+						h.ctl.point(C("LFilter", Nat(e.pid()), Nat(rid)), true, h.noBind)
+						h.runActs(fl.acts)
+						return e.val() >= fl.min
+					}))
+				} else {
+					opts = append(opts, eb.WithFilter(func(e Ev[M]) bool {
+						h.ctl.point(C("LFilter", Nat(e.P), Nat(rid)), true, h.noBind)
+						h.runActs(fl.acts)
+						return e.V >= fl.min
+					}))
+				}
 			}
 			if sp.ctx {
 				return eb.SubscribeContext(h.bus, ctxSlot[M](sp.fn/2, h, rid), opts...)
